@@ -4,11 +4,12 @@
   proved for mark steps (`merge_succeeds_marks`), for flat replace steps in every schema
   (`merge_succeeds_replace_flat`), for replace steps with open slices over any ranges in every schema when
   the second step continues after the first one's content (`merge_succeeds_replace_forward`), and for both
-  `merge` branches under the per-case guard `mergeCompat` (`merge_succeeds_replace_backward`), which holds
+  `merge` branches under the per-case guard `mergeCompat` (`merge_succeeds_replace_backward`; the guard is
+  also necessary, `merge_succeeds_replace_iff`), which holds
   in particular in schemas whose `compatible_content` is transitive (`mergeCompat_of_trans`,
   `merge_succeeds_replace`; in the second branch the statement is false without a guard,
   `merge_needs_guard`).  Helper lemmas: Proofs/Merge.lean, Proofs/MarkMerge.lean, Proofs/FlatReplace.lean,
-  Proofs/MergeOpen.lean, Proofs/MergeForward.lean, Proofs/MergeGuard.lean.
+  Proofs/MergeOpen.lean, Proofs/MergeForward.lean, Proofs/MergeGuard.lean, Proofs/MergeNecessary.lean.
 -/
 import PM.Step
 import Proofs.StepToks
@@ -18,6 +19,7 @@ import Proofs.FlatReplace
 import Proofs.MergeOpen
 import Proofs.MergeForward
 import Proofs.MergeGuard
+import Proofs.MergeNecessary
 namespace PM.C16
 open PM
 
@@ -189,6 +191,44 @@ theorem merge_equiv_marks (S : Schema) (hts : TextLoop S) (s1 s2 m : Step) (d d1
     · exact ⟨(removeMark_facts S d d' _ _ mk h').norm hn,
         (removeMark_facts S d1 d2 _ _ mk h2).norm ((removeMark_facts S d d1 _ _ mk h1).norm hn)⟩
   rw [h', merge_equiv S s1 s2 m d d1 d2 d' h1 h2 hm h' norms.1 norms.2]
+
+/-! ### Is `TextLoop` forced for merged mark steps?
+
+A *single* add-mark or remove-mark step needs `TextLoop` to apply (re-marking the middle of a text node
+splits it into up to three text children: C01, `addMark_applies`), and `merge_succeeds_marks` inherits the
+hypothesis only because it is proved through that single-step theorem.  It does not seem to be forced for
+merging: the merged step rebuilds, token for token, the document the pair produced, and every node it
+validates on the way was validated with the same content by one of the two steps (or is untouched).  A
+search with the real code over the content expressions `text?`, `text{0,3}`, `(text img)* text?`,
+`img? text? img?` (none satisfies `TextLoop`), all one- and two-paragraph documents with up to three
+differently marked text runs, and all pairs of add-mark / remove-mark ranges that apply in sequence and
+merge (about 3.3·10^5 pairs) found no refused merged step, and the check of this property treats a refused
+merged mark step as a violation in every schema, with aimed schemas of this kind (counters
+`merged:…:schema-without-textLoop`).  So there is no `_needs_TextLoop` counterexample; a proof without the
+hypothesis needs a variant of the replace-success argument (Proofs/MarkSuccess.lean) that uses validity of
+the *pair's result* along the rebuilt path instead of `TextLoop` — not done.  What holds without any
+hypothesis (no `TextLoop`, no validity, no normal form) is the case in which the first range covers the
+second: the merged step is the first step. -/
+
+/-- **merged mark steps, first range covers the second — no hypothesis on schema or document**: the merged
+    step is the first step, it applies and (`merge_equiv`) the second step changed nothing -/
+theorem merge_succeeds_marks_covered (S : Schema) (s1 s2 m : Step) (d d1 : Node) (f t f' t' : Nat) (mk : Mark)
+    (hs : (s1 = .addMark f t mk ∧ s2 = .addMark f' t' mk) ∨ (s1 = .removeMark f t mk ∧ s2 = .removeMark f' t' mk))
+    (hcov : f ≤ f' ∧ t' ≤ t)
+    (h1 : S.apply s1 d = .ok d1) (hm : s1.merge s2 = some m) : m = s1 ∧ S.apply m d = .ok d1 := by
+  have hm' : m = s1 := by
+    rcases hs with ⟨rfl, rfl⟩ | ⟨rfl, rfl⟩
+    · simp only [Step.merge] at hm
+      split at hm
+      · simp only [Option.some.injEq] at hm
+        rw [← hm, show min f f' = f by omega, show max t t' = t by omega]
+      · simp at hm
+    · simp only [Step.merge] at hm
+      split at hm
+      · simp only [Option.some.injEq] at hm
+        rw [← hm, show min f f' = f by omega, show max t t' = t by omega]
+      · simp at hm
+  exact ⟨hm', hm' ▸ h1⟩
 
 /-! ## The merged step applies — replace steps, flat case (helper lemmas: Proofs/FlatReplace.lean)
 
@@ -659,6 +699,88 @@ theorem mergeCompat_of_trans (S : Schema) (htr : compatTransB S = true) (d d1 d2
       exact ancCompat_of_trans_pair S htrP ty K K1 K2 t' t f' c c' a' e hv.1.1 hv.2 hn hsn hsn'
         hp hp' hr1 hr2 (by rw [hl1]; exact ha1.2) ⟨ha2.1, by rw [hl2]; exact ha2.2⟩
     · simp at hm
+
+/-- **the per-case guard is necessary**: if the pair applies, merges, and the merged step applies, then
+    `mergeCompat` holds (a successful replace has run `check_join` on the ancestors of its two ends at every
+    level above its slice, `replaceKids_anc`) -/
+theorem mergeCompat_of_merged_applies (S : Schema) (d d1 d2 d' : Node)
+    (f t f' t' : Nat) (sl sl' : Slice) (m : Step) (hn : fnorm d.kids = true)
+    (h1 : S.apply (.replace f t sl false) d = .ok d1)
+    (h2 : S.apply (.replace f' t' sl' false) d1 = .ok d2)
+    (hm : (Step.replace f t sl false).merge (.replace f' t' sl' false) = some m)
+    (h' : S.apply m d = .ok d') :
+    mergeCompat S d (.replace f t sl false) (.replace f' t' sl' false) = true := by
+  obtain ⟨ty, at_, mk, K, K1, rfl, rfl, hr1⟩ := fromReplace_parts S d d1 f t _ (apply_replace_from _ _ _ _ _ _ _ h1)
+  obtain ⟨ty', at', mk', K1', K2, he, rfl, hr2⟩ :=
+    fromReplace_parts S _ d2 f' t' _ (apply_replace_from _ _ _ _ _ _ _ h2)
+  cases he
+  simp only [Node.kids] at hn
+  have F1 := fwdFacts S ty K K1 f t _ hr1
+  have F2 := fwdFacts S ty K1 K2 f' t' _ hr2
+  obtain ⟨c, a, e⟩ := sl
+  obtain ⟨c', a', b⟩ := sl'
+  simp only [mergeCompat, Node.kids]
+  simp only [Step.merge, Bool.or_self, Bool.false_eq_true, if_false] at hm
+  split at hm
+  · rename_i hc
+    rw [if_pos hc]
+  · split at hm
+    · rename_i hnc hc
+      rw [if_neg hnc]
+      simp only [Bool.and_eq_true, decide_eq_true_eq] at hc
+      obtain ⟨⟨rfl, rfl⟩, rfl⟩ := hc
+      simp only [Option.some.injEq] at hm
+      subst hm
+      obtain ⟨ty2, at2, mk2, K', K2', he', rfl, hr'⟩ :=
+        fromReplace_parts S _ d' f' t _ (apply_replace_from _ _ _ _ _ _ _ h')
+      cases he'
+      have hanc := replaceKids_anc S ty K K2' f' t _ hn hr'
+      -- the merged slice is open on the left like the second one; depths left of `t'` did not change
+      have hft' := F2.range.1
+      have hr := F1.range
+      have hsz1 := F1.size
+      have e1 : depthAt K1 f' = depthAt K f' :=
+        depthAt_of_take_eq K K1 f' (by omega) (by omega) (F1.take_left f' hft')
+      have e2 : depthAt K1 t' = depthAt K t' :=
+        depthAt_of_take_eq K K1 t' (by omega) (by omega) (F1.take_left t' (Nat.le_refl _))
+      have hd2 := F2.depths
+      simp only at hd2
+      have hw1 := F1.wf
+      have hw2 := F2.wf
+      simp only [Slice.wf, Bool.and_eq_true, decide_eq_true_eq] at hw1 hw2
+      have hopen : (if (Slice.mk c 0 e).size + (Slice.mk c' a' 0).size = 0 then Slice.empty
+          else ⟨fappend c' c, a', e⟩ : Slice).openStart = a' := by
+        split
+        · rename_i hz
+          have := spineL_le c'
+          have := spineR_le c
+          simp only [Slice.size] at hz
+          simp only [Slice.empty]
+          omega
+        · rfl
+      rw [hopen] at hanc
+      rw [show depthAt K t' = depthAt K f' - a' by omega]
+      exact hanc
+    · simp at hm
+
+/-- **exact characterisation**: under the hypotheses of `merge_succeeds_replace` minus the schema guard, the
+    merged step applies **iff** the per-case guard holds (and then it yields the pair's result) -/
+theorem merge_succeeds_replace_iff (S : Schema) (d d1 d2 : Node)
+    (f t f' t' : Nat) (sl sl' : Slice) (m : Step)
+    (hv : S.checkNode d = true) (hn : fnorm d.kids = true)
+    (hsn : fnorm sl.content = true) (hsn' : fnorm sl'.content = true)
+    (hp : openValid S sl.openStart sl.openEnd sl.content = true)
+    (hp' : openValid S sl'.openStart sl'.openEnd sl'.content = true)
+    (h1 : S.apply (.replace f t sl false) d = .ok d1)
+    (h2 : S.apply (.replace f' t' sl' false) d1 = .ok d2)
+    (hm : (Step.replace f t sl false).merge (.replace f' t' sl' false) = some m)
+    (ha1 : alignedAt d1.kids f = true ∧ alignedAt d1.kids (f + sl.size.toNat) = true)
+    (ha2 : alignedAt d2.kids f' = true ∧ alignedAt d2.kids (f' + sl'.size.toNat) = true) :
+    (∃ d', S.apply m d = .ok d') ↔
+      mergeCompat S d (.replace f t sl false) (.replace f' t' sl' false) = true :=
+  ⟨fun ⟨d', h'⟩ => mergeCompat_of_merged_applies S d d1 d2 d' f t f' t' sl sl' m hn h1 h2 hm h',
+   fun hg => ⟨d2, merge_succeeds_replace_backward S d d1 d2 f t f' t' sl sl' m hg hv hn hsn hsn' hp hp' h1 h2 hm
+     ha1 ha2⟩⟩
 
 /-! The guard `compatTransB` of `merge_succeeds_replace` cannot be dropped (second `merge` branch, deleting
     backwards): a schema in which `compatible_content` is not transitive — `doc "(A|B|C)*"`, `A "p q*"`,
